@@ -161,6 +161,12 @@ func replayScalar(c *CheckCtx, o *Obligation) (string, bool, map[string]any) {
 			} else {
 				predicted = append(predicted, "?")
 			}
+		case KAny:
+			if v == model["anynil"] {
+				predicted = append(predicted, "<nil>")
+			} else {
+				predicted = append(predicted, "<non-nil>")
+			}
 		default:
 			predicted = append(predicted, v)
 		}
@@ -172,6 +178,12 @@ func replayScalar(c *CheckCtx, o *Obligation) (string, bool, map[string]any) {
 	obsParts := regexp.MustCompile(`\[([^\]]*)\]`).FindAllStringSubmatch(observed, -1)
 	for i, p := range predicted {
 		if p == "?" {
+			continue
+		}
+		if p == "<non-nil>" {
+			if i >= len(obsParts) || obsParts[i][1] == "<nil>" {
+				confirmed = false
+			}
 			continue
 		}
 		if i >= len(obsParts) || obsParts[i][1] != p {
